@@ -127,13 +127,31 @@ func init() {
 				vz := int64(12 + rng.Intn(16))
 				cell := math.Pow(2, float64(25-vz))
 				k := 1 + rng.Intn(2)
+				if rng.Intn(3) == 0 {
+					k = 2 + rng.Intn(3)
+				}
 				var l []ext
 				for j := 0; j < k; j++ {
-					vi := int64(math.Floor((mn + (mx-mn)*(rng.Float64()*1.2-0.1)) / cell))
+					// every ID has its own vertical zoom near vz; later entries may repeat the horizontal tile and/or the NUMERIC
+					// vertical index of an earlier entry at another zoom (each ID's cells depend on its own (vZoom, f) only)
+					z := vz
+					if j > 0 && rng.Intn(2) == 0 {
+						z = vz + int64(rng.Intn(5)) - 2
+					}
+					cz := math.Pow(2, float64(25-z))
+					vi := int64(math.Floor((mn + (mx-mn)*(rng.Float64()*1.2-0.1)) / cz))
 					if mx < mn {
 						vi = int64(rng.Intn(100))
 					}
-					l = append(l, ext{h, randIdx(h), randIdx(h), vz, vi})
+					e := ext{h, randIdx(h), randIdx(h), z, vi}
+					if j > 0 && rng.Intn(2) == 0 {
+						p := l[rng.Intn(len(l))]
+						e.x, e.y = p.x, p.y
+					}
+					if j > 0 && rng.Intn(3) == 0 {
+						e.f = l[rng.Intn(len(l))].f
+					}
+					l = append(l, e)
 				}
 				span := math.Abs(mx - mn)
 				oz := int64(math.Floor(math.Log2(span/cell))) + int64(rng.Intn(4))
